@@ -117,6 +117,62 @@ def show_events(ev):
     return jo((f"{a}.{b}.{o(t)}.{jo(map(str, ids), ',')}.{o(f)}" for a, b, t, ids, f in ev), ",")
 
 
+
+def request_after_bind(ctx):
+    """whatever the handshake made of the server's behaviour — acks with or without tokens, a provider that ends on an empty token with
+    its context still incomplete — once bind() has returned on a client constructed WITH authentication, a request is never sent
+    unprotected: it goes out with a security trailer (auth_len ≠ 0, stub not in clear) or request() raises"""
+    import itertools
+    from dpapi_ng import _rpc as r
+    from dpapi_ng._rpc import _request
+    alpha = server_alphabet(ctx.rng)
+    marker = b"GETKEY STUB THAT MUST BE SEALED"
+    clear = rpcfmt.finalize(_request.Response(header=r.PDUHeader(5, 0, r.PacketType.RESPONSE, r.PacketFlags(3), r.DataRep(), 0, 0, 1), sec_trailer=None,
+                                               alloc_hint=4, context_id=0, cancel_count=0, stub_data=b"\x00" * 4))
+    scripts = [[(b"c1", True)], [(b"c1", False), (b"", False)], [(b"c1", False), (b"c2", False), (b"", False)], [(b"c1", False), (b"", True)],
+               [(b"c1", False), (b"c2", True)], [(b"", False)]]
+    for sc in scripts:
+        for k in (1, 2):
+            for acks in itertools.product(["ackAA1t", "ackAA1n", "ackAA0n", "ackAA0t"], repeat=k):
+                for use_async in (False, True):
+                    replies = [alpha[a](i) for i, a in enumerate(acks)] + [clear]
+                    prov = rpcfmt.ScriptedProvider(script=list(sc))
+                    got = {"bind": None, "wire": None}
+
+                    def drive_sync():
+                        sock = rpcsim.FakeSocket(replies=list(replies))
+                        c = rpcsim.sync_client(sock, prov)
+                        c.bind(contexts())
+                        got["bind"] = len(sock.sent)
+                        try:
+                            c.request(0, 0, marker)
+                        finally:
+                            got["wire"] = sock.sent[got["bind"]] if len(sock.sent) > got["bind"] else None
+
+                    async def drive_async():
+                        reader = asyncio.StreamReader()
+                        pending = list(replies)
+                        w = rpcsim.FakeWriter(lambda data: reader.feed_data(pending.pop(0)) if pending else reader.feed_eof())
+                        c = rpcsim.async_client(reader, w, prov)
+                        await asyncio.wait_for(c.bind(contexts()), 2)
+                        got["bind"] = len(w.sent)
+                        try:
+                            await asyncio.wait_for(c.request(0, 0, marker), 2)
+                        finally:
+                            got["wire"] = w.sent[got["bind"]] if len(w.sent) > got["bind"] else None
+                    try:
+                        asyncio.run(drive_async()) if use_async else drive_sync()
+                    except Exception:  # noqa  (an error — during bind or on the request — is a closed failure)
+                        pass
+                    ctx.count("request_after_bind:" + ("sent" if got["wire"] is not None else ("bind_error" if got["bind"] is None else "request_error")))
+                    wire = got["wire"]
+                    if wire is not None and (int.from_bytes(wire[10:12], "little") == 0 or marker in wire):
+                        ctx.violation("after bind() on an authenticated client, a request goes out without security (no trailer / stub in clear)",
+                                      {"provider_script": [(hx(t), d) for t, d in sc], "server_script": list(acks), "async": use_async, "scenario": "request_after_bind",
+                                       "context_complete": bool(prov.ctx.complete)}, hx(wire)[:120], "a sealed request, or an error")
+                        return
+
+
 def run(ctx):
     from dpapi_ng import _client as cl
     from dpapi_ng._rpc import _pdu
@@ -235,6 +291,7 @@ def run(ctx):
                                       {**inp, "bind_ack_results": [int(x.result) for x in first.results], "desired": desired}, r_, "error")
     for i in range(0, len(cases), 3000):
         ctx.compare_batch(cases[i:i + 3000], nontrivial=lambda line, impl: True)
+    request_after_bind(ctx)
 
 
 def search(ctx, broken, disagreements):
